@@ -157,6 +157,32 @@ Proof.
 Qed.
 Print Assumptions C18_ids_never_reused.
 
+(* (3a) key consistency under an explicit role-separation hypothesis. L tells learner nodes from data nodes; the
+        hypothesis is stated on the log: no write makes a learner-role node a voter, a data-role node a learner, or
+        marks a learner-role node removing (the coordinator code checks none of this; the cluster keeps a node's
+        role fixed). Then every written value and the final stored value have: every voter has a raft id, every
+        removing entry belongs to a voter, RaftIDs has no key besides voters and learners. *)
+Theorem C18_keys_consistent_under_role_separation : forall L replica info auto evs,
+  wf info -> len (removings info) <= 1 ->
+  keys_consistent_at L info ->
+  Forall (fun ra => roles_respected L (a_before (snd ra)) (a_value (snd ra))) (snd (run (init_state replica info auto) evs)) ->
+  Forall (fun ra => keys_consistent_at L (a_value (snd ra))) (snd (run (init_state replica info auto) evs)) /\
+  keys_consistent_at L (r_info (s_reg (fst (run (init_state replica info auto) evs)))).
+Proof.
+  intros L replica info auto evs Hw Hl HK Hroles.
+  assert (Hi : Inv false replica info) by (split; [exact Hw|split; [exact Hl|discriminate]]).
+  destruct (run_spec false _ evs (init_inv false replica info auto Hi)) as [H1 [H2 _]]; [discriminate|].
+  destruct (keys_consistent L _ _ _ H2) as [A B].
+  - apply Forall_forall. intros a Ha. apply in_map_iff in Ha. destruct Ha as [[r a'] [He Ha]]. simpl in He. subst a'.
+    unfold tagged_ok in H1. rewrite Forall_forall in H1. destruct (H1 _ Ha) as [_ [_ [Ht _]]]. exact Ht.
+  - apply Forall_forall. intros a Ha. apply in_map_iff in Ha. destruct Ha as [[r a'] [He Ha]]. simpl in He. subst a'.
+    rewrite Forall_forall in Hroles. apply (Hroles _ Ha).
+  - exact HK.
+  - split; [|exact B]. apply Forall_forall. intros [r a] Ha. simpl. rewrite Forall_forall in A. apply A.
+    apply in_map_iff. exists (r, a). split; [reflexivity|exact Ha].
+Qed.
+Print Assumptions C18_keys_consistent_under_role_separation.
+
 (* (4) in every state reachable from a valid layout, every attempt of every next event satisfies the clause of
        that event kind (step_P): for doCheckNamespaces and handleNamespaceMigrate, att_sync and att_alive;
        for rebalanceNamespace and processRemovingNodes, att_sync and att_mark_ready *)
